@@ -444,6 +444,10 @@ type c15Sys struct {
 	late       bool
 
 	eofBeforeCancel bool
+
+	unaryCalls      int
+	lastDeadline    time.Time
+	lastHasDeadline bool
 }
 
 func (s *c15Sys) tick() int64 { s.clock++; return s.clock }
@@ -456,6 +460,8 @@ func (h *cancelImpl) observe(what string, ctx context.Context, err error) {
 }
 
 func (h *cancelImpl) Unary(c *dyn.Call) (proto.Message, error) {
+	h.s.unaryCalls++
+	h.s.lastDeadline, h.s.lastHasDeadline = c.Ctx.Deadline()
 	for i := 0; i < 3; i++ {
 		sched.Point("handler step", nil)
 		h.observe("step", c.Ctx, nil)
@@ -509,6 +515,55 @@ func (h *cancelImpl) Stream(c *dyn.Call) error {
 	}
 	return nil
 }
+
+// followUp: whatever happened to the cancelled call, the next, healthy unary call on the same
+// mux (same protocol family, grpc-timeout 10S on the gRPC protocols) must run its handler under
+// a live context with that deadline and be answered OK - a cancellation must leave nothing
+// behind in the mux. It runs after the schedule, outside the scheduler.
+func (s *c15Sys) followUp() string {
+	pb, _ := proto.Marshal(s.t.newReq("", []byte("after"), 0))
+	before := s.unaryCalls
+	t0 := time.Now()
+	var res *callResult
+	switch s.proto {
+	case "grpc":
+		res = doGRPC(s.mux, "/vs.T/Unary", "application/grpc", http.Header{"Grpc-Timeout": {"10S"}}, reqBody{Data: wire.GRPCFrame(0, pb)})
+	case "web":
+		res = doWeb(s.mux, "/vs.T/Unary", "application/grpc-web+proto", http.Header{"Grpc-Timeout": {"10S"}}, reqBody{Data: wire.GRPCFrame(0, pb)})
+	default:
+		res = doHTTP(s.mux, "POST", "/t/unary", "", http.Header{"Content-Type": {"application/json"}}, reqBody{Data: []byte(`{"b":"eA=="}`), CL: -2})
+	}
+	t1 := time.Now()
+	what := fmt.Sprintf("a healthy %s unary call made after the cancelled %s %s call, on the same mux", s.proto, s.proto, s.shape)
+	if res.Panicked {
+		return what + ", panicked: " + res.Panic
+	}
+	if s.unaryCalls != before+1 {
+		st := "none"
+		if res.Status != nil {
+			st = fmt.Sprintf("%d %q", res.Status.Code, res.Status.Message)
+		}
+		return fmt.Sprintf("%s, did not reach its handler (%d handler calls; http=%d grpc-status=%s)", what, s.unaryCalls-before, res.HTTPCode, st)
+	}
+	if s.proto == "http" {
+		if res.HTTPCode != 200 {
+			return fmt.Sprintf("%s, was answered %d", what, res.HTTPCode)
+		}
+		return ""
+	}
+	if res.Status == nil || res.Status.Code != 0 || len(res.Msgs) != 1 {
+		return fmt.Sprintf("%s, was answered status=%+v replies=%d", what, res.Status, len(res.Msgs))
+	}
+	if !s.lastHasDeadline || s.lastDeadline.Before(t0.Add(10*time.Second)) || s.lastDeadline.After(t1.Add(10*time.Second)) {
+		return fmt.Sprintf("%s, ran without the 10 s deadline it asked for (has deadline: %v, %v from receipt)", what, s.lastHasDeadline, s.lastDeadline.Sub(t0))
+	}
+	return ""
+}
+
+// h2StreamCancel is what a body read of net/http's HTTP/2 server returns after RST_STREAM(CANCEL).
+type h2StreamCancel struct{}
+
+func (h2StreamCancel) Error() string { return "stream error: stream ID 1; CANCEL" }
 
 var c15T *tSchema
 
@@ -608,8 +663,20 @@ func c15Scenario(protoName, shape string, late bool, withOpts ...bool) *e3Scenar
 		sched.Point("client cancels / disconnects", nil)
 		s.cancelAt = s.tick()
 		s.cancel()
-		// net/http then fails the pending and all later body reads and response writes
-		s.body.failed = context.Canceled
+		// net/http then fails the pending and all later body reads and response writes; what the
+		// read error is depends on the transport: HTTP/2 hands out its stream error (RST_STREAM
+		// CANCEL), HTTP/1.1 a truncated body; the scenarios on a mux with options keep the plain
+		// context error
+		switch {
+		case opts:
+			s.body.failed = context.Canceled
+		case protoName == "grpc":
+			s.body.failed = h2StreamCancel{}
+		case protoName == "web":
+			s.body.failed = io.ErrUnexpectedEOF
+		default:
+			s.body.failed = context.Canceled
+		}
 		s.rec.FailWriteAt = s.rec.Writes + 1
 		s.rec.WriteErr = errors.New("http2: stream closed")
 	}}
@@ -650,6 +717,12 @@ func c15Scenario(protoName, shape string, late bool, withOpts ...bool) *e3Scenar
 		if s.returnedAt == 0 {
 			fails = append(fails, e3Fail{"servehttp-did-not-return", ""})
 		}
+		// summary for the outcome key (before the follow-up call adds its own observations)
+		nobs := len(s.obs)
+		if f := s.followUp(); f != "" {
+			fails = append(fails, e3Fail{"healthy-call-after-cancelled-one-fails", f})
+		}
+		s.obs = s.obs[:nobs]
 		// summary for the outcome key
 		nerr := 0
 		for _, o := range s.obs {
